@@ -402,12 +402,59 @@ class CallGraph:
                     mark(st, facts)
                 facts = killed(st, facts)
 
+        self._narrow[fi.fq] = res  # breaks recursion through param facts
         if not fi.is_lambda:
-            walk(fi.node.body, {})
+            walk(fi.node.body, self._param_facts(fi))
         else:
             mark(fi.node.body, {})
-        self._narrow[fi.fq] = res
         return res
+
+    def _param_facts(self, fi):
+        """Class facts for the parameters of a private method, taken from its
+        call sites: `_m` is only called as `self._m(x, ...)` from methods of its
+        own class, and at every such call `x` is a name narrowed by an
+        enclosing isinstance test.  (Extracting a helper from a method must not
+        lose what the method knew about its variables.)"""
+        if fi.cls is None or fi.parent is not None or not fi.name.startswith(
+                '_') or fi.name.startswith('__') or not fi.params:
+            return {}
+        sites = []
+        for m in fi.cls.methods.values():
+            if m is fi or not m.params:
+                continue
+            sn = m.params[0]
+            for n in own_nodes(m):
+                if isinstance(n, ast.Call) and isinstance(
+                        n.func, ast.Attribute) and n.func.attr == fi.name and \
+                        isinstance(n.func.value, ast.Name) and \
+                        n.func.value.id == sn:
+                    sites.append((m, n))
+        if not sites:
+            return {}
+        # any other mention of the name in the package makes the set of call
+        # sites unknown
+        for g in self.p.functions.values():
+            if g.cls is fi.cls:
+                continue
+            for n in own_nodes(g):
+                if isinstance(n, ast.Attribute) and n.attr == fi.name:
+                    return {}
+        out = {}
+        for i, prm in enumerate(fi.params[1:]):
+            classes, ok = [], True
+            for m, n in sites:
+                if i >= len(n.args) or not isinstance(n.args[i], ast.Name):
+                    ok = False
+                    break
+                facts = self.narrow_facts(m).get(id(n), {})
+                cl = facts.get(n.args[i].id)
+                if not cl:
+                    ok = False
+                    break
+                classes += [c for c in cl if c not in classes]
+            if ok and classes:
+                out[prm] = classes
+        return out
 
     def receiver_class(self, fi, expr, at=None):
         """Class of a receiver expression when statically evident."""
